@@ -62,7 +62,7 @@ theorem C09_crc_detects_burst {w : Nat} (P : BitVec w) (hP : P.msb = true) (A X 
   runBits_burst_ne P hP A X X' C hlen hw hne s
 
 example : runBits P16 0#16 ([true] ++ [true, false] ++ [false]) ≠ runBits P16 0#16 ([true] ++ [false, true] ++ [false]) :=
-  C09_crc_detects_burst P16 P16_msb _ _ _ _ rfl (by decide) (by decide) _
+  C09_crc_detects_burst P16 P16_msb [true] [true, false] [false, true] [false] rfl (by decide) (by decide) _
 
 /-- the same for the MSB-first CRC of bzip2 (needs the constant coefficient of the polynomial) -/
 theorem C09_bzcrc_detects_burst (A X X' C : List Bool)
@@ -181,12 +181,6 @@ theorem C09_gate_arcfs (env : ArcEnv) (f out : Bytes) (h : arcfsDepack env f = s
     ∃ pos, le16 f (pos + 26) = 0 ∨ le16 f (pos + 26) = (crc16IBM out 0).toNat :=
   gate_arcfs env f out h
 
-theorem C09_gate_lzx (env : LzxEnv) (f out : Bytes) (h : lzxDepack env f = some out) :
-    ∃ pos, le32 f (pos + 22) = (crc32A out 0).toNat ∧
-      le32 f (pos + 26) = lzxHeaderCrc (slice f pos 31) (slice f (pos + 31) (u8 f (pos + 30)))
-        (slice f (pos + 31 + u8 f (pos + 30)) (u8 f (pos + 14))) :=
-  gate_lzx env f out h
-
 /-! ## rejection -/
 
 theorem toNat32_ne {a b : BitVec 32} (h : a ≠ b) : a.toNat ≠ b.toNat := fun e => h (BitVec.eq_of_toNat_eq e)
@@ -292,15 +286,6 @@ theorem C09_reject_arcfs (env : ArcEnv) (f orig out : Bytes)
   · rcases hs pos with h1 | h1
     · exact toNat16_ne (C09_crc16_detects orig out 0 hb) (h1.symm.trans hc)
     · exact h1 hc
-
-theorem C09_reject_lzx (env : LzxEnv) (f orig out : Bytes)
-    (hs : ∀ pos, le32 f (pos + 22) = (crc32A orig 0).toNat ∨ le32 f (pos + 22) ≠ (crc32A out 0).toNat)
-    (hb : BitBurst 32 orig out) : lzxDepack env f ≠ some out := by
-  intro h
-  obtain ⟨pos, hc, _⟩ := C09_gate_lzx env f out h
-  rcases hs pos with h1 | h1
-  · exact toNat32_ne (C09_crc32_detects orig out 0 hb) (h1.symm.trans hc)
-  · exact h1 hc
 
 /-- **C09_reject** — the summary used by the check: for the three check codes, a gate that only
     accepts `stored = check(out)` never accepts an output within one burst of the payload whose
